@@ -108,6 +108,17 @@ def check_vector(v):
         cmp("Geometry.get_pileup", v["pileup"], outcome(lambda: g.get_pileup(A).to_dict()["chr1"].tolist()))
         cmp("Geometry.get_mask", v["mask"], outcome(lambda: [bool(x) for x in g.get_mask(A).to_dict()["chr1"].tolist()]))
         cmp("Geometry.sort", v["sorted"], outcome(lambda: _rows(g.sort(A))))
+        if a:
+            # records with further columns: the sorted table holds the SAME records (every row keeps its name, score and strand)
+            def sort_full():
+                from bionumpy.datatypes import Bed6
+                t6 = Bed6(["chr1"] * len(a), np.array([r["s"] for r in a], dtype=int), np.array([r["e"] for r in a], dtype=int), ["n%d" % i for i in range(len(a))],
+                          np.arange(len(a)), ["+-"[i % 2] for i in range(len(a))])
+                out = g.sort(t6)
+                recs = sorted(zip(out.start.tolist(), out.stop.tolist(), out.name.tolist(), out.score.tolist(), out.strand.tolist()))
+                return _rows(out), [list(r) for r in recs]
+            want6 = sorted([r["s"], r["e"], "n%d" % i, i, "+-"[i % 2]] for i, r in enumerate(a))
+            cmp("Geometry.sort[records with further columns]", [v["sorted"], want6], outcome(lambda: list(sort_full())))
         srt = _iv(v["sorted"])
         for k, exp in enumerate(v["merge"]):
             d = k
@@ -123,6 +134,17 @@ def check_vector(v):
                     cmp("extend_to_size", exp, outcome(lambda: _rows(extend_to_size(B6, L, S))), length=L, strand_pattern=k + 1)
                     if k == 2:
                         cmp("Geometry.extend_to_size", exp, outcome(lambda: _rows(g.extend_to_size(B6, L))), length=L, strand_pattern=k + 1)
+            # the same rows on three contigs of sizes S, S+1, S+2 in ONE call: every fragment is clipped at the end of its own contig
+            from bionumpy.datatypes import Bed6
+            names3 = ["c1", "c2", "c3"]
+            st3 = v["strands"][2]
+            T3 = Bed6([nm for nm in names3 for _ in a], np.array([r["s"] for _ in names3 for r in a], dtype=int), np.array([r["e"] for _ in names3 for r in a], dtype=int),
+                      ["x"] * (3 * len(a)), np.zeros(3 * len(a), dtype=int), list(st3) * 3)
+            per_row_sizes = np.array([S + j for j in range(3) for _ in a], dtype=int)
+            for li in range(S):
+                exp3 = [r for j in range(3) for r in v["extend3"][j][li]]
+                cmp("extend_to_size[three contigs]", exp3, outcome(lambda: _rows(extend_to_size(T3, li + 1, per_row_sizes))), length=li + 1, strand_pattern=3)
+                cmp("Geometry.extend_to_size[three contigs]", exp3, outcome(lambda: _rows(Geometry({nm: S + j for j, nm in enumerate(names3)}).extend_to_size(T3, li + 1))), length=li + 1, strand_pattern=3)
             C = _iv(v["clipin"])
             cmp("clip", v["clip"], outcome(lambda: _rows(clip(C, S))))
             cmp("Geometry.clip", v["clip"], outcome(lambda: _rows(g.clip(C))))
